@@ -448,6 +448,10 @@ def run_edit(case) -> CaseResult:
                   'entry:%s/%s' % (entry, fam)]
         if 'reencode-key' in editor.applied:
             labels.append('edit:reencode-key:' + fam)
+            # (which blob of the message: for RFC 4432, f0 is the host key
+            # K_S and f1 the transient key K_T)
+            labels.append('edit:reencode-key:%s:%s' %
+                          (fam, editor.applied.split(':')[0]))
         return CaseResult(labels, True, [kex, e['target'], e['dir'],
                                          editor.applied, entry])
     finally:
@@ -485,6 +489,21 @@ def edit_strategy(tier: str):
                                   'entry': pick(['connect', 'connect',
                                                  'hostkey']),
                                   'edit': edit})
+
+
+def reencode_cases(tier: str):
+    """The value-preserving re-encoding of every ssh-rsa blob the server
+    sends, in every key exchange method (finite: message x blob)"""
+
+    for kex in kex_methods():
+        for hostkey in ('default', 'rsa'):
+            for index in range(3):
+                for field in range(2):
+                    for entry in ('connect', 'hostkey'):
+                        yield {'kex': kex, 'hostkey': hostkey, 'entry': entry,
+                               'edit': {'dir': 'sc', 'target': 'kexmsg',
+                                        'index': index, 'field': field,
+                                        'op': 6, 'pos': 0, 'bit': 0}}
 
 
 def control_cases(tier: str):
@@ -900,6 +919,13 @@ FAMILIES = [
                                             'curve448', 'ecdh-nist', 'gex',
                                             'rsa', 'dh-group')
                       for t in ('kexinit', 'kexmsg')]},
+           case_timeout=120),
+    Family('reencode', run_edit, enumerate=reencode_cases, exhaustive=True,
+           required={'all': ['edit:reencode-key:rsa:f0',
+                             'edit:reencode-key:rsa:f1',
+                             'edit:reencode-key:dh-group',
+                             'edit:reencode-key:curve25519',
+                             'edit:reencode-key:gex']},
            case_timeout=120),
     Family('hostkey', run_hostkey, enumerate=hostkey_cases, exhaustive=True,
            required={'all': ['first-choice', 'later-choice', 'no-common',
